@@ -10,10 +10,10 @@ PROP = {
     ],
     "rule": "live: import a pipeline, then 1-4 rounds of (status write, optional position write, ApplyPlanLive of a live-eligible change / any "
             "mutation / no change) with allow 3/4, stale 1/8, stop and start succeeding 4/5, reconfigure scripts over {ok, not-live, error}, "
-            "store failure index 1-12 on 1/5, in 1/5 of the applies an external Start flips the pipeline to running between the two status reads (mostly stopped before, mostly allow=0); non-trivial = a lifecycle call, a stale or unauthorised refusal happened",
+            "store failure index 1-12 on 1/5, in 1/5 of the applies an external Start flips the pipeline to running between the two status reads (mostly stopped before, mostly allow=0); 1/3 of the cases are the real-hash scenario (plan at T1, out-of-band change of the same / another field or resource through the services, ApplyPlanLive with the kept REAL hash); non-trivial = a lifecycle call, a stale or unauthorised refusal happened",
     "strength": "stale refused, authorisation, drain-before-mutate and store-level consistency of the failed restart apply: full for the model; "
                 "data-path clauses (no record skipped, in-place swap at a record boundary) are C03/C06/C13 and assumed here",
-    "assumptions": ["plan hash = the plan itself (SHA-256 collision-freeness)", "the per-pipeline lock gives mutual exclusion (one apply is sequential)",
+    "assumptions": ["plan hash = the view computeHash digests (changes with config paths / live-swappability, desired config); SHA-256 collision-freeness", "the per-pipeline lock gives mutual exclusion (one apply is sequential)",
                     "a successful StopAndWait leaves the pipeline stopped with durable positions (C06), Start resumes from them (C03)",
                     "an external Start can land only between ApplyPlanLive's two status reads (the window the re-read closes), modelled as one scripted flip", "lifecycle outcomes are inputs (scripted) — concurrency with record flow is not exercised by this harness"],
 }
